@@ -405,6 +405,15 @@ def gen_hand_recipe(rng: random.Random, semiring: str) -> dict[str, Any]:
                 val["tweak"] = rng.choice(["eps", "middle", "middle", None])
             inputs[v] = {"tp": {"init": {"type": "const", "value": val}, "learnable": learn,
                                 "dtype": "real"}, "act": "none", "layer": lt}
+    if not cplx and not wide and rng.random() < 0.15:
+        # a small palette of scalar constants repeated / interleaved over many same-shaped tensors
+        # of one fold group (e.g. 1, 2, 1, 2, 2): as frozen tables in practice
+        nv = rng.randint(4, 6)
+        palette = rng.sample([0.5, 1.0, 2.0, 3, 1.5, 0.25], rng.randint(2, 3))
+        lt = "categorical_probs" if positive else rng.choice(["embedding", "categorical_logits"])
+        learn = rng.random() < 0.5
+        inputs = [{"tp": {"init": {"type": "const", "value": rng.choice(palette)}, "learnable": learn,
+                          "dtype": "real"}, "act": "none", "layer": lt} for _ in range(nv)]
     gaussian = (not cplx) and (not wide) and rng.random() < 0.15
     if gaussian:
         # all-Gaussian inputs: rank-1 parameters (mean, stddev of shape (K,)) next to rank-2 sums
